@@ -424,12 +424,22 @@ class Driver:
             return None
         d = self.rng.choice(self.descrs)
         outcome = 'accepted'
+        handle = self.rng.choice(existing)
         try:
             with self.mdib.context_state_transaction() as mgr:
-                mgr.mk_context_state(d, self.rng.choice(existing), set_associated=False)
-        except ValueError:
-            outcome = 'refused'
+                try:
+                    mgr.mk_context_state(d, handle, set_associated=False)
+                except ValueError:
+                    outcome = 'refused'
+                    raise
+        except Exception as ex:  # noqa: BLE001
+            if outcome != 'refused':
+                outcome = f'accepted_then_{type(ex).__name__}'
         self.ctx.count(f'transaction.handle_reuse.{outcome}')
+        if outcome != 'refused':
+            self.ctx.witness('transaction.mk_context_state.handle_in_use_accepted',
+                             'mk_context_state accepted the Handle of an existing context state (handles are no longer unique)',
+                             {'descriptor': d, 'handle': handle, 'outcome': outcome})
         return {'mech': 'transaction', 'sub': 'mk_context_state_existing_handle', 'result': outcome}
 
 
